@@ -197,7 +197,7 @@ func checkC16(c *Ctx) Meta {
 	// in-memory fields that never cross
 	for _, spec := range []struct {
 		x, typ, pkg string
-		wire      []string
+		wire        []string
 	}{
 		{"Proof", "ProofOfSpace", "github.com/massnetorg/mass-core/poc/chiapos", structFields(c, pkgProto, "MsgProof")},
 		{"Quality", "WorkSpaceQuality", pkgEngineV2, structFields(c, pkgProto, "MsgQuality")},
